@@ -202,6 +202,22 @@ func (e *SpecEnv) eval(x SpecExpr) Val {
 	case *SIdent:
 		return e.evalIdent(x.Name)
 	case *SUnary:
+		if x.Op == "&" {
+			// address of an addressable local variable (one whose address the code takes)
+			id, isId := x.X.(*SIdent)
+			if !isId || e.f == nil {
+				e.fail("& is only supported on local variables")
+			}
+			defs := e.f.locals[id.Name]
+			for i := len(defs) - 1; i >= 0; i-- {
+				if defs[i].addr {
+					if v, ok := e.f.vals[defs[i].val]; ok {
+						return v
+					}
+				}
+			}
+			e.fail("&%s: not an addressable local at this point", id.Name)
+		}
 		v := e.eval(x.X)
 		switch x.Op {
 		case "!":
@@ -574,6 +590,9 @@ func (e *SpecEnv) evalIndex(x *SIndex) Val {
 			return Val{T: types.Typ[types.Byte], S: fmt.Sprintf("(sat %s %s)", base.S, e.idx(iv))}
 		}
 	case *types.Slice:
+		if base.Arr != "" {
+			return Val{T: t.Elem(), S: fmt.Sprintf("(select %s %s)", base.Arr, c.iAdd(fmt.Sprintf("(s_off %s)", base.S), e.idx(iv)))}
+		}
 		h := e.st.get(c.so.heapArr(t.Elem()))
 		return Val{T: t.Elem(), S: fmt.Sprintf("(select (select %s (s_ref %s)) %s)", h, base.S, c.iAdd(fmt.Sprintf("(s_off %s)", base.S), e.idx(iv)))}
 	case *types.Array:
@@ -726,6 +745,9 @@ func (e *SpecEnv) evalCall(x *SCall) Val {
 		if sf, ok := c.eng.cs.SpecFns[id.Name]; ok {
 			return e.callSpecFn(sf, x.Args)
 		}
+		if gd, ok := c.eng.cs.Ghosts[id.Name]; ok && len(x.Args) == 1 {
+			return e.ghostRead(gd, e.eval(x.Args[0]))
+		}
 		// package-level Go function used as pure
 		if e.pkg != nil && c.eng != nil {
 			if fn := c.eng.pkgFunc(e.pkg, id.Name); fn != nil {
@@ -843,8 +865,20 @@ func (e *SpecEnv) callSpecFn(sf *SpecFn, argx []SpecExpr) Val {
 	var ts []string
 	for i, a := range argx {
 		v := e.eval(a)
-		v = e.coerce(v, e.lookupType(sf.Params[i].Type))
+		pt := e.lookupType(sf.Params[i].Type)
+		v = e.coerce(v, pt)
 		ts = append(ts, c.termOf(v))
+		if st, isSlice := pt.Underlying().(*types.Slice); isSlice {
+			// a slice argument is passed together with the current contents of its backing array
+			if v.Arr != "" {
+				ts = append(ts, v.Arr)
+			} else {
+				if e.st == nil {
+					e.fail("slice passed to spec function %s without a state", sf.Name)
+				}
+				ts = append(ts, fmt.Sprintf("(select %s (s_ref %s))", e.st.get(c.so.heapArr(st.Elem())), v.S))
+			}
+		}
 	}
 	rt := e.lookupType(sf.Ret)
 	if len(ts) == 0 {
@@ -866,7 +900,15 @@ func (c *FuncCtx) declareSpecFn(e *SpecEnv, sf *SpecFn) {
 		pn := p.Name + "!p"
 		ps = append(ps, fmt.Sprintf("(%s %s)", pn, s))
 		sorts = append(sorts, s)
-		ne.names[p.Name] = Val{T: t, S: pn}
+		pv := Val{T: t, S: pn}
+		if st, isSlice := t.Underlying().(*types.Slice); isSlice {
+			an := p.Name + "!arr"
+			as := fmt.Sprintf("(Array %s %s)", c.so.idxSort(), c.so.sortOf(st.Elem()))
+			ps = append(ps, fmt.Sprintf("(%s %s)", an, as))
+			sorts = append(sorts, as)
+			pv.Arr = an
+		}
+		ne.names[p.Name] = pv
 	}
 	rs := c.so.sortOf(e.lookupType(sf.Ret))
 	name := "sf_" + sf.Name
